@@ -394,3 +394,145 @@ Proof.
     [apply (inv_live_nodup _ _ _ I) | intros x Hx; apply (inv_live _ _ _ I), Hx
     | apply (inv_keys _ _ _ I) | intros x Hx; apply (inv_live _ _ _ I), Hx].
 Qed.
+
+(* ------------------------------------------------------------------ C01/C07 corollaries on histories *)
+Fixpoint afold (m : amap) (ops : list (Z * sop)) (outs : list sout) : amap :=
+  match ops, outs with
+  | o :: ops', out :: outs' => afold (anext m o out) ops' outs'
+  | _, _ => m
+  end.
+
+Lemma spec_trace_app : forall a b m outs, spec_trace m (a ++ b) outs ->
+  exists oa ob, outs = oa ++ ob /\ length oa = length a /\ spec_trace m a oa /\ spec_trace (afold m a oa) b ob.
+Proof.
+  induction a as [|o a IH]; intros b m outs H; cbn [app] in H.
+  - exists [], outs. cbn. repeat split; try reflexivity; exact H.
+  - destruct outs as [|x outs]; cbn in H; [contradiction|]. destruct H as [H1 H2].
+    destruct (IH b _ _ H2) as [oa [ob [E [L [S1 S2]]]]]. exists (x :: oa), ob. subst outs. cbn.
+    repeat split; try reflexivity; try assumption. lia.
+Qed.
+
+Lemma times_from_app t0 a b : times_from t0 (a ++ b) ->
+  times_from t0 a /\ exists t1, t0 <= t1 /\ times_from t1 b /\ (forall o, In o a -> fst o <= t1).
+Proof.
+  revert t0. induction a as [|o a IH]; intros t0 H; cbn in *.
+  - split; [exact I|]. exists t0. split; [lia|]. split; [exact H | tauto].
+  - destruct H as [H1 H2]. destruct (IH _ H2) as [A [t1 [B [C D]]]]. split; [tauto|].
+    exists t1. split; [lia|]. split; [exact C|]. intros x [<-|Hx]; [lia | apply D, Hx].
+Qed.
+
+Lemma times_from_last t0 a o : times_from t0 (a ++ [o]) -> t0 <= fst o /\ forall x, In x a -> fst x <= fst o.
+Proof.
+  revert t0. induction a as [|y a IH]; intros t0 H; cbn in *; [split; [lia | tauto]|].
+  destruct H as [H1 H2]. destruct (IH _ H2) as [A B]. split; [lia|]. intros x [<-|Hx]; [exact A | apply B, Hx].
+Qed.
+
+(* a recorded announce time only moves forward, and stays put when the pair is not announced again *)
+Lemma afold_ge : forall a m oa it t t0, spec_trace m a oa -> times_from t0 a -> m it = Some t -> t <= t0 ->
+  exists t', afold m a oa it = Some t' /\ t <= t'.
+Proof.
+  induction a as [|[now op] a IH]; intros m oa it t t0 H Ht Hm Hle; [exists t; cbn; split; [exact Hm | lia]|].
+  destruct oa as [|x oa]; cbn in H; [contradiction|]. destruct H as [H1 H2]. cbn [afold].
+  cbn in Ht. destruct Ht as [Ht1 Ht2].
+  destruct op as [it'|ih], x as [b|l]; cbn in H1; try contradiction; unfold anext in *; cbn [snd fst] in *.
+  - destruct b.
+    + destruct (item_eqb it it') eqn:E.
+      * destruct (IH (upd m it' now) oa it now now H2 Ht2) as [t' [A B]];
+          [unfold upd; rewrite E; reflexivity | lia |]. exists t'. split; [exact A | lia].
+      * apply (IH (upd m it' now) oa it t now H2 Ht2); [unfold upd; rewrite E; exact Hm | lia].
+    + apply (IH m oa it t now H2 Ht2 Hm). lia.
+  - apply (IH m oa it t now H2 Ht2 Hm). lia.
+Qed.
+
+Lemma afold_same : forall a m oa it, spec_trace m a oa -> (forall tt, ~ In (tt, SAdd it) a) -> afold m a oa it = m it.
+Proof.
+  induction a as [|[now op] a IH]; intros m oa it H Hn; [reflexivity|].
+  destruct oa as [|x oa]; cbn in H; [contradiction|]. destruct H as [H1 H2]. cbn [afold].
+  rewrite (IH _ _ it H2); [|intros tt Hin; apply (Hn tt); right; exact Hin].
+  destruct op as [it'|ih], x as [b|l]; cbn in H1; try contradiction; unfold anext; cbn [snd fst]; [|reflexivity].
+  destruct b; [|reflexivity]. unfold upd. destruct (item_eqb it it') eqn:E; [|reflexivity].
+  apply item_eqb_eq in E. subst it'. exfalso. apply (Hn now). left. reflexivity.
+Qed.
+
+Lemma spec_trace_last : forall a m o outs, spec_trace m (a ++ o :: nil) outs ->
+  exists oa x, outs = oa ++ [x] /\ length oa = length a /\ spec_trace m a oa /\ spec_out (afold m a oa) o x.
+Proof.
+  intros a m o outs H. destruct (spec_trace_app _ _ _ _ H) as [oa [ob [E [L [S1 S2]]]]].
+  destruct ob as [|x [|y ob]]; cbn in S2; try tauto. exists oa, x. tauto.
+Qed.
+
+Theorem spec_announce_then_find m mid t2 t3 ih a outs :
+  spec_trace m ((t2, SAdd (ih, a)) :: mid ++ [(t3, SFind ih)]) outs ->
+  times_from t2 (mid ++ [(t3, SFind ih)]) ->
+  (forall it t, m it = Some t -> t <= t2) ->
+  exists b omid l, outs = OAdd b :: omid ++ [OFind l] /\ length omid = length mid /\
+    (b = true -> t3 - t2 < 86400000000000 -> In a l) /\
+    ((forall tt, ~ In (tt, SAdd (ih, a)) mid) -> 86400000000000 <= t3 - t2 -> ~ In a l).
+Proof.
+  intros H Ht Hm. destruct outs as [|x outs]; cbn [spec_trace] in H; [contradiction|]. destruct H as [H1 H2].
+  destruct x as [b|l0]; cbn in H1; [|contradiction].
+  destruct (spec_trace_last _ _ _ _ H2) as [omid [y [E [L [S1 S2]]]]].
+  destruct y as [b'|l]; cbn in S2; [contradiction|]. destruct S2 as [_ S2].
+  exists b, omid, l. split; [subst outs; reflexivity|]. split; [exact L|].
+  destruct (times_from_app _ _ _ Ht) as [Htm _]. destruct (times_from_last _ _ _ Ht) as [Hle _]. cbn [fst] in Hle.
+  unfold anext in *. cbn [snd fst] in *. split.
+  - intros -> Hlt. apply S2.
+    destruct (afold_ge mid (upd m (ih, a) t2) omid (ih, a) t2 t2 S1 Htm) as [t' [A B]];
+      [unfold upd; rewrite item_eqb_refl; reflexivity | lia |].
+    exists t'. split; [exact A|]. unfold dur_since. lia.
+  - intros Hn Hge Hin. apply S2 in Hin. destruct Hin as [t [A B]].
+    rewrite (afold_same _ _ _ _ S1 Hn) in A. destruct b.
+    + unfold upd in A. rewrite item_eqb_refl in A. inversion A; subst t. unfold dur_since in B. lia.
+    + assert (Hna : ~ alive m t2 (ih, a)).
+      { intros Hal. assert (false = true) by (apply H1; left; exact Hal). discriminate. }
+      apply Hna. exists t. split; [exact A|]. pose proof (Hm _ _ A). unfold dur_since in *. lia.
+Qed.
+
+(* recorded times never exceed the time of the last operation *)
+Lemma afold_le : forall a m oa t0, spec_trace m a oa -> times_from t0 a -> (forall it t, m it = Some t -> t <= t0) ->
+  forall t1, (forall o, In o a -> fst o <= t1) -> t0 <= t1 -> forall it t, afold m a oa it = Some t -> t <= t1.
+Proof.
+  induction a as [|[now op] a IH]; intros m oa t0 H Ht Hm t1 Hall Hle it t Hf; [cbn in Hf; pose proof (Hm _ _ Hf); lia|].
+  destruct oa as [|x oa]; cbn in H; [contradiction|]. destruct H as [H1 H2]. cbn [afold] in Hf.
+  cbn in Ht. destruct Ht as [Ht1 Ht2].
+  assert (Hnow : now <= t1) by (apply (Hall (now, op)); left; reflexivity).
+  apply (IH _ _ now H2 Ht2) with (t1 := t1) (it := it); [|intros o Ho; apply Hall; right; exact Ho|exact Hnow|exact Hf].
+  intros it0 tt. destruct op as [it'|ih], x as [b|l]; cbn in H1; try contradiction; unfold anext; cbn [snd fst].
+  - destruct b; [|intros Hx; pose proof (Hm _ _ Hx); lia]. unfold upd. destruct (item_eqb it0 it'); [intros Hx; inversion Hx; lia|].
+    intros Hx; pose proof (Hm _ _ Hx); lia.
+  - intros Hx; pose proof (Hm _ _ Hx); lia.
+Qed.
+
+Lemma srun_length s ops : length (snd (srun s ops)) = length ops.
+Proof.
+  revert s. induction ops as [|o r IH]; intros s; cbn [srun]; [reflexivity|].
+  destruct (sstep s o) as [s1 x]. specialize (IH s1). destruct (srun s1 r). cbn in *. lia.
+Qed.
+
+(* On every history of the store: an accepted announce is returned by every lookup of its info-hash less than
+   24 h later, whatever happens in between; and a pair not announced again is not returned 24 h later or more. *)
+Theorem announce_then_find pre mid post t0 t2 t3 ih a :
+  let ops := pre ++ (t2, SAdd (ih, a)) :: mid ++ (t3, SFind ih) :: post in
+  times_from t0 ops ->
+  exists opre b omid l opost,
+    snd (srun empty_store ops) = opre ++ OAdd b :: omid ++ OFind l :: opost /\
+    length opre = length pre /\ length omid = length mid /\
+    (b = true -> t3 - t2 < 86400000000000 -> In a l) /\
+    ((forall tt, ~ In (tt, SAdd (ih, a)) mid) -> 86400000000000 <= t3 - t2 -> ~ In a l).
+Proof.
+  intros ops Ht. pose proof (storage_refines_spec ops t0 Ht) as S. unfold ops in *.
+  destruct (spec_trace_app _ _ _ _ S) as [opre [o1 [E [L [S1 S2]]]]].
+  destruct (times_from_app _ _ _ Ht) as [Htp [t1 [Ht1 [Htr Hall]]]].
+  replace ((t2, SAdd (ih, a)) :: mid ++ (t3, SFind ih) :: post)
+    with (((t2, SAdd (ih, a)) :: mid ++ [(t3, SFind ih)]) ++ post) in S2, Htr
+    by (cbn [app]; rewrite <- app_assoc; reflexivity).
+  destruct (spec_trace_app _ _ _ _ S2) as [o2 [opost [E2 [L2 [S3 S4]]]]].
+  destruct (times_from_app _ _ _ Htr) as [Htr2 _]. cbn [app times_from fst] in Htr2. destruct Htr2 as [Hle2 Htr2].
+  destruct (spec_announce_then_find _ _ _ _ _ _ _ S3 Htr2) as [b [omid [l [E3 [L3 [F1 F2]]]]]].
+  { intros it t Hx. enough (t <= t1) by lia.
+    apply (afold_le pre aempty opre t0 S1 Htp) with (t1 := t1) (it := it); try assumption.
+    intros ? ? Hn. discriminate. }
+  exists opre, b, omid, l, opost. split.
+  - rewrite E, E2, E3. cbn [app]. rewrite <- app_assoc. reflexivity.
+  - repeat split; assumption.
+Qed.
